@@ -461,7 +461,21 @@ func roleByte(rootRole role, k int64) role {
 func roleSlice(rootRole role, lo, hi int64) role {
 	return func(v ssa.Value) bool {
 		r, ok := sliceRefOf(v)
-		return ok && !r.elem && r.lo == lo && r.hi == hi && rootRole(r.root)
+		if !ok || r.elem || r.lo != lo || !rootRole(r.root) {
+			return false
+		}
+		if r.hi == hi {
+			return true
+		}
+		// an open end is the same as the full length of a freshly made buffer
+		if hi == -1 && r.hi >= 0 {
+			if ln := bufLen(stripConv(r.root)); ln != nil {
+				if k, isK := constInt(ln); isK && k == r.hi {
+					return true
+				}
+			}
+		}
+		return false
 	}
 }
 
